@@ -122,3 +122,11 @@ package middleware
 //@ func newStripHeaders$1
 //@ prop C07
 //@ ensures[strips-the-collected-names] result == ret(stripHeaders) && arg(stripHeaders, 0) == headersToStrip && arg(stripHeaders, 1) == next
+
+// ------------------------------------------------------------------ C13: readiness
+//@ func readynessCheck$1
+//@ prop C13
+//@ at call WriteHeader assert[ready-only-if-store-reachable] arg(WriteHeader, 0) == 200 ==> ret(VerifyConnection) == nil
+//@ ensures[unreachable-store-is-500] called(VerifyConnection) && ret(VerifyConnection) != nil ==> called(WriteHeader#0)
+//@     && arg(WriteHeader#0, 0) == 500 && !called(WriteHeader#1) && !called(ServeHTTP)
+//@ ensures[other-paths-pass-through] !called(VerifyConnection) ==> called(ServeHTTP)
